@@ -187,6 +187,11 @@ func init() {
 		c07responseWriter(x, fd)
 		c07requestTouch(x, fd)
 		c07gateTouch(x)
+		// ---- escapedLen, regenerated from the source by the translator (xlate.go): the model's `dropEscaped`
+		// is proved equal to it in Props/C07Xlate.lean
+		xlateEmit(x, "proxy/http_proxy.go", []xlSpec{
+			{"", "escapedLen", "XEscapedLen", []string{"auto"}, []string{"p0:Bytes:[]", "p1:Int:0"}, "Int"},
+		})
 		c07mainWiring(x)
 		c07norouteStore(x)
 		return nil
